@@ -113,7 +113,8 @@ SetToday(d) == /\ today' = d /\ UNCHANGED <<kind, table>>
 Next == /\ \/ \E sp \in Spellings, sl \in SpecLists : Update(sp, sl) /\ today' = today
            \/ \E d \in {"d1", "d3", "d5"} : today # d /\ SetToday(d)
         /\ obs' = ObsOf(kind', table', today')
-Bound == TLCGet("level") <= MaxSteps
+\* the initial state has level 1: histories of at most MaxSteps steps
+Bound == TLCGet("level") <= MaxSteps + 1
 Spec == Init /\ [][Next]_vars
 
 (* ---- properties ------------------------------------------------------- *)
